@@ -59,6 +59,10 @@ def gen_cases(tier, seed):
         for mode in ("eager_retry", "eager_force"):
             for N in (0, 1, 2):
                 cases.append({"kind": kind, "policy": "linear", "rec": False, "N": N, "patterns": patterns(N) if mode == "eager_retry" else ["F" * (N + 3) + "S"], "mode": mode, "seed": rnd.randrange(10**6)})
+        # forced retries beyond the budget, then an ordinary failure: no budget is left, the chain must end (dead / rescheduled)
+        for N in (0, 1, 3):
+            for rec in (False, True):
+                cases.append({"kind": kind, "policy": "linear", "rec": rec, "N": N, "patterns": ["F" * (N + 1) + "X", "F" * (N + 2) + "X", "F" * N + "XF" if N else "FX"], "mode": "force_then_fail", "seed": rnd.randrange(10**6)})
         nsamp = 6 if tier == "quick" else 40
         pats7 = ["".join(rnd.choice("FFFT") for _ in range(rnd.randint(0, 8))) for _ in range(nsamp)]
         pats7 = [p + "S" if len(p) <= 7 else p for p in pats7]
@@ -120,6 +124,8 @@ async def scenario(loop, case, out, stats, fps, samples):
             for ch in pat:
                 if mode == "ladder":
                     steps.append({"do": "raise", "exc": "ValueError"} if ch == "F" else {"do": "ok", "d": 3.0} if ch == "T" else {"do": "ok", "ret": 1})
+                elif mode == "force_then_fail":
+                    steps.append({"do": "eager", "action": "force_retry", "pre": []} if ch == "F" else {"do": "raise", "exc": "KeyError"} if ch == "X" else {"do": "ok", "ret": 1})
                 else:
                     if ch == "S":
                         steps.append({"do": "ok", "ret": 1})
@@ -180,6 +186,15 @@ async def scenario(loop, case, out, stats, fps, samples):
                 exp_starts = min(fail_prefix, N) + 1
                 # retry refused at attempt N -> ValueError in the actor -> failure with no budget left
                 exp_final = "success" if (pat.endswith("S") and fail_prefix <= N) else "exhausted"
+            elif mode == "force_then_fail":
+                # forced retries run regardless of the budget; the first ORDINARY failure with already_tried >= N ends the chain
+                k = pat.index("X")
+                exp_starts = k + 1 if k >= N else None
+                exp_final = "exhausted"
+                stats["forced_over_budget"] += 1
+                if exp_starts is None:
+                    # the ordinary failure still has budget: it is retried, later steps decide; only the counters are judged
+                    exp_starts = len(sched_starts)
             else:
                 fail_prefix = len(pat) - 1
                 exp_starts = fail_prefix + 1
@@ -191,7 +206,7 @@ async def scenario(loop, case, out, stats, fps, samples):
             tried = [e["attempt"] for e in sched_starts]
             if tried != list(range(len(tried))):
                 out.append(V("counter_step", kind, ctx, f"{id_} pattern {pat}: attempt counters seen at the actor {tried}"))
-            if mode != "eager_force" and any(t > N for t in tried):
+            if mode not in ("eager_force", "force_then_fail") and any(t > N for t in tried):
                 out.append(V("counter_over_budget", kind, ctx, f"{id_} N={N}: attempt counter reached {max(tried)} without a forced retry"))
             # back-off: every retry requeue is due at failure time + policy(k); the k-th retry never starts earlier
             for k, rq in enumerate(sched_reqs, start=1):
